@@ -33,6 +33,9 @@ U.declare({
     'LS': ('record', [('content', 'Str')]),                 # a local StringIO (value semantics: it never escapes)
 })
 U.dict_records = {'Cfg'}
+_VAL_TRUTHY = z3.Function('val_truthy', U.sort('Val'), z3.BoolSort())
+# bool(v) of an arbitrary setting is unrelated to `v is the sentinel`: a truthiness test where the identity test belongs fails its obligations
+U.truthy = {'Val': lambda v: _VAL_TRUTHY(v)}
 Heap = z3.ArraySort(U.sort('Val'), z3.StringSort())
 U.sorts['Heap'] = Heap
 UNSET = z3.Const('UNSET', U.sort('Val'))
